@@ -325,6 +325,7 @@ fn main() {
         let mut s = String::new();
         if let Some(p) = info.payload().downcast_ref::<&str>() { s = p.to_string(); }
         else if let Some(p) = info.payload().downcast_ref::<String>() { s = p.clone(); }
+        if let Some(l) = info.location() { s = format!("{} at {}:{}", s, l.file().rsplit('/').next().unwrap_or(""), l.line()); }
         *lm.lock().unwrap() = s;
     }));
     for (i, line) in reqs.lines().enumerate() {
